@@ -313,6 +313,25 @@ func sendOrder(e *Env) {
 		})
 	}
 	defer func() { stopTraffic = true }()
+	if g.Pct(20) {
+		// a reconnect timer of the application that fires although the connection
+		// is up: the call is refused and that is all - the connection stays up and
+		// what has been handed over is still written
+		e.S.Count("fault.connect-called-while-connected")
+		nStray := g.Range(1, 3)
+		e.S.Spawn("reconnect-timer", func() {
+			for k := 0; k < nStray && !stopTraffic; k++ {
+				simrt.Sleep(time.Duration(e.S.Choose(40)) * time.Millisecond)
+				for i := e.S.Choose(50); i > 0; i-- {
+					simrt.Sleep(0)
+				}
+				if err := s.c.Connect(); err == nil {
+					e.Violation("harness", "Connect on a connected client returned nil")
+					return
+				}
+			}
+		})
+	}
 	for _, sd := range senders {
 		sd := sd
 		if sd.kind == 0 {
@@ -568,6 +587,102 @@ func sendAcrossReconnect(e *Env, g G, s *session) {
 		return
 	}
 	s.c.Close()
+}
+
+// bystander is a second, unrelated client in the same process (a bot on two
+// networks) with a server of its own: whatever it sends goes there, whole and
+// in order, and nothing of it ever shows up on the first client's connection.
+type bystander struct {
+	e     *Env
+	c     *client.Conn
+	lines []string
+	sent  int
+	done  bool
+}
+
+func bystanderLine(k int) string {
+	if k%11 == 3 {
+		// now and then a very long one (longer than any buffer on its way out)
+		return fmt.Sprintf("PRIVMSG #other :o%d %s", k, strings.Repeat("o", 4200+k))
+	}
+	return fmt.Sprintf("PRIVMSG #other :o%d %s", k, strings.Repeat("o", k%40))
+}
+
+func startBystander(e *Env, g G) *bystander {
+	b := &bystander{e: e, done: true}
+	e.S.Count("probe.second-client-in-the-same-process")
+	b.c = NewClient(ClientOpts{Nick: "other", Server: "other.sim", Flood: true})
+	mainDial, mainPlan := e.OnDial, e.LinkPlan
+	e.LinkPlan = func(l *simnet.Link) {
+		if strings.HasPrefix(l.Addr, "other.sim") {
+			l.ChunkMode = g.Intn(4)
+			l.Window = []int{0, 7, 40}[g.Intn(3)]
+			return
+		}
+		mainPlan(l)
+	}
+	e.OnDial = func(l *simnet.Link) {
+		if !strings.HasPrefix(l.Addr, "other.sim") {
+			mainDial(l)
+			return
+		}
+		e.S.Spawn("other-server", func() {
+			if _, ok := Registration(l, time.Hour); !ok {
+				return
+			}
+			Welcome(l, "other")
+			for {
+				if e.S.Choose(3) == 0 {
+					simrt.Sleep(time.Duration(e.S.Choose(3)) * time.Millisecond)
+				}
+				ln, ok := l.RecvLine()
+				if !ok {
+					return
+				}
+				b.lines = append(b.lines, strings.TrimRight(ln, "\r\n"))
+			}
+		})
+	}
+	return b
+}
+
+// run connects the bystander and lets it talk, n lines at its own pace.
+func (b *bystander) run(n int) bool {
+	if err := b.c.Connect(); err != nil {
+		b.e.Violation("harness-connect", "the second client's Connect failed: %v", err)
+		return false
+	}
+	b.done = false
+	b.e.S.Spawn("other-sender", func() {
+		for k := 0; k < n; k++ {
+			b.c.Raw(bystanderLine(k))
+			b.sent++
+			if b.e.S.Choose(3) == 0 {
+				simrt.Sleep(time.Duration(b.e.S.Choose(3)) * time.Millisecond)
+			}
+		}
+		b.done = true
+	})
+	return true
+}
+
+// verify waits for the bystander's lines and compares them with what it sent.
+func (b *bystander) verify(class string) bool {
+	simrt.BlockFor("send.main", "the second client's lines", time.Hour, func() bool { return b.done && len(b.lines) >= b.sent })
+	b.e.Check()
+	for k := 0; k < b.sent; k++ {
+		want := bystanderLine(k)
+		if k >= len(b.lines) || b.lines[k] != want {
+			got := "(nothing)"
+			if k < len(b.lines) {
+				got = b.lines[k]
+			}
+			b.e.Violation(class, "a second client in the same process sent %q as its line %d; its own server received %q", want, k, clip(got))
+			return false
+		}
+	}
+	b.c.Close()
+	return true
 }
 
 // wirePayload is text a caller may legitimately hand to Raw: any bytes but CR
@@ -931,7 +1046,14 @@ func sendCommands(e *Env) {
 		}
 		simrt.Sleep(time.Duration(g.Intn(3)) * time.Second)
 	}
+	var other *bystander
+	if !c11 && g.Pct(15) {
+		other = startBystander(e, g)
+	}
 	if !s.connect() {
+		return
+	}
+	if other != nil && !other.run(40+g.Intn(200)) {
 		return
 	}
 	noise := 0
@@ -1037,6 +1159,9 @@ func sendCommands(e *Env) {
 				}
 			case g.Pct(15):
 				args[i] = splitText(g, L, true)
+			case g.Pct(6):
+				// very long, longer than any buffer between the call and the socket
+				args[i] = strings.Repeat(g.Str(alnum+" :", 1, 9), 1+g.Range(4200, 9000)/9)
 			case g.Pct(10):
 				args[i] = strings.Repeat(hostilePool[g.Intn(len(hostilePool))], g.Range(1, 400))
 			case g.Pct(10):
@@ -1164,6 +1289,9 @@ func sendCommands(e *Env) {
 	}
 	if !c11 && !e.S.Failed() {
 		checkStream(e, s, noiseSent)
+	}
+	if other != nil && !e.S.Failed() && !other.verify("foreign-line") {
+		return
 	}
 	s.c.Close()
 }
